@@ -101,3 +101,22 @@ Proof.
   eexists. vm_compute. repeat split; reflexivity.
 Qed.
 
+
+(* A seeded mutation of the first fix: Load() then a plain Store() instead of the CompareAndSwap
+   loop.  A finish of the same seed between the Load and the Store (a badly behaved client) has its
+   delete undone: the seed is tracked again, with its token already given back.  On the same
+   schedule the code as committed finds the entry gone, loads again and rejects the feedback. *)
+Definition ls_race : list label :=
+  [InsCall 1; InsSelect 1 ArmChan; InsCheck 1 ArmChan; InsStore 1; InsSend 1; RunRecv; RunHand;
+   FbCall 1; FbLoad 1; FinCall 1; FinDelete 1; FinRelease 1; FbCas 1].
+
+Lemma feedback_loadstore_refuted :
+  exists s s',
+    run loadstore (init 2 1) (ls_race ++ [FbCheck 1 ArmChan; FbSelect 1 ArmChan]) = Some s
+    /\ crashed s = false /\ calls s = []
+    /\ rets s = [(OFb 1, ROk); (OFin 1, ROk); (OIns 1, ROk)]
+    /\ table s = [1] /\ tokens s = 0
+    /\ run fixed (init 2 1) (ls_race ++ [FbLoad 1]) = Some s'
+    /\ calls s' = [] /\ rets s' = [(OFb 1, RNotPresent); (OFin 1, ROk); (OIns 1, ROk)]
+    /\ table s' = [] /\ tokens s' = 0.
+Proof. eexists. eexists. vm_compute. repeat split; reflexivity. Qed.
